@@ -9,7 +9,7 @@ def gen_migrate_ss(rng, big=False):
     return schedgen.gen_migrate(rng, big, self_suspend=True)
 
 
-FAMS = [schedgen.gen_xjoin, schedgen.gen_suspend, schedgen.gen_mig_switch, schedgen.gen_replace, schedgen.gen_directed]
+FAMS = [schedgen.gen_xjoin, schedgen.gen_suspend, schedgen.gen_mig_switch, schedgen.gen_replace, schedgen.gen_directed, schedgen.gen_replace_keep]
 NAME_RE = r"^(C06_|SchedCount_invariant|C11_suspend_counts|C11_resume_decrements)"
 MANIFEST = {
     "text": "Theorems (Coq, every number of units/pools, every interleaving of the scheduler LTS whose labels are the ABT_VERIF hook "
